@@ -136,6 +136,12 @@ func SetMethodT(
 	)] = methodT
 }
 
+// maxAncestorWalkDepth bounds the walks up ClassInheritanceMap; no real hierarchy is that
+// deep, a cyclic one is infinite.
+const maxAncestorWalkDepth = 64
+
+var ancestorWalkDepth int
+
 func getParentMethodT(
 	frame string,
 	class string,
@@ -143,6 +149,14 @@ func getParentMethodT(
 	isPrivate bool,
 	isStatic bool,
 ) *T {
+
+	// cyclic inheritance (class A < B ... class B < A) must not recurse forever
+	ancestorWalkDepth++
+	defer func() { ancestorWalkDepth-- }()
+
+	if ancestorWalkDepth > maxAncestorWalkDepth {
+		return nil
+	}
 
 	classNode := ClassNode{Frame: frame, Class: class}
 
@@ -441,6 +455,14 @@ func setParentValueT(
 	isStatic bool,
 ) bool {
 
+	// cyclic inheritance (class A < B ... class B < A) must not recurse forever
+	ancestorWalkDepth++
+	defer func() { ancestorWalkDepth-- }()
+
+	if ancestorWalkDepth > maxAncestorWalkDepth {
+		return false
+	}
+
 	classNode := ClassNode{Frame: frame, Class: class}
 
 	for _, parentNode := range ClassInheritanceMap[classNode] {
@@ -520,6 +542,14 @@ func getParentValueT(
 	variable string,
 	isStatic bool,
 ) *T {
+
+	// cyclic inheritance (class A < B ... class B < A) must not recurse forever
+	ancestorWalkDepth++
+	defer func() { ancestorWalkDepth-- }()
+
+	if ancestorWalkDepth > maxAncestorWalkDepth {
+		return nil
+	}
 
 	classNode := ClassNode{Frame: frame, Class: class}
 
